@@ -114,6 +114,8 @@ pub trait QT: Sized + Send + Sync + 'static {
     fn conv_from(p: Self::P) -> Self;
     fn to_posit(&self) -> Self::P;
     fn conv_to(&self) -> Self::P;
+    /// `P::from(q)` by value (the quire is copied through its bit image)
+    fn conv_to_val(&self) -> Self::P;
     /// image as eight u64 limbs, most significant first (shorter quires are right-aligned and
     /// sign-extended by the caller when needed; here unused high limbs are zero)
     fn image(&self) -> [u64; 8];
@@ -257,6 +259,7 @@ macro_rules! impl_qt_common {
         #[inline] fn conv_from(p: $P) -> Self { <$Q as From<$P>>::from(p) }
         #[inline] fn to_posit(&self) -> $P { <$Q>::to_posit(self) }
         #[inline] fn conv_to(&self) -> $P { <$P as From<&$Q>>::from(self) }
+        #[inline] fn conv_to_val(&self) -> $P { <$P as From<$Q>>::from(<$Q as QT>::from_image(<$Q as QT>::image(self))) }
         #[inline] fn is_zero(&self) -> bool { <$Q>::is_zero(self) }
         #[inline] fn is_nar(&self) -> bool { <$Q>::is_nar(self) }
         #[inline] fn add_product(&mut self, a: $P, b: $P) { <$Q>::add_product(self, a, b) }
